@@ -29,11 +29,18 @@ type unmarshalOptions struct {
 }
 
 func (o unmarshalOptions) Options() proto.UnmarshalOptions {
+	// Carry the remaining recursion depth over; a zero RecursionLimit would
+	// select the default limit again.
+	depth := o.depth
+	if depth == 0 {
+		depth = -1
+	}
 	return proto.UnmarshalOptions{
 		Merge:          true,
 		AllowPartial:   true,
 		DiscardUnknown: o.DiscardUnknown(),
 		Resolver:       o.resolver,
+		RecursionLimit: depth,
 
 		NoLazyDecoding: o.NoLazyDecoding(),
 	}
